@@ -304,6 +304,9 @@ pub struct LiveCase {
     /// byte-identical batches in consecutive steps (catches a signed response cached across batches)
     #[serde(default)]
     pub sentinel_ietf: Option<bool>,
+    /// before each wait, feed the server this many invalid datagrams alone (no valid request in that pass)
+    #[serde(default)]
+    pub junk_before_wait: u8,
 }
 
 fn sys_ns(t: SystemTime) -> u128 {
@@ -318,6 +321,13 @@ fn check_live(ctx: &mut Ctx, c: &LiveCase) -> Res {
     let pk = lab.pk.clone();
     const SLACK: u128 = 250_000_000;
     for w in &c.waits_ms {
+        if c.junk_before_wait > 0 {
+            // a processing pass that sees only invalid datagrams, then silence, then the valid requests
+            let junk: Vec<(usize, Vec<u8>)> = (0..c.junk_before_wait).map(|k| (k as usize % 16, vec![0x5au8.wrapping_add(k); 16 + 4 * k as usize])).collect();
+            if let Err(p) = lab.feed(&junk, 2) {
+                return ctx.fail("process-events-panic", p);
+            }
+        }
         std::thread::sleep(Duration::from_millis(*w as u64));
         let step: Vec<Send> = c.reqs.iter().enumerate().map(|(i, q)| Send { sock: (i % 16) as u8, d: Dgram::Std(q.clone()) }).collect();
         let sent = materialize(&lab, &step, 16);
@@ -388,22 +398,87 @@ pub fn run_c11(ctx: &mut Ctx) -> Vec<Violation> {
         check_clock(ctx, c)
     }));
     // live: young servers (many) and aged servers (few; each costs > 1 s of sleeping)
-    let young = (seed32(), prop::sample::select(vec![1u8, 3, 64]), proptest::collection::vec(0u16..3, 1..=3), proptest::collection::vec(std_req(), 1..=10)).prop_map(|(seed, batch_size, waits_ms, reqs)| LiveCase { seed, batch_size, waits_ms, reqs, sentinel_ietf: None });
+    let young = (seed32(), prop::sample::select(vec![1u8, 3, 64]), proptest::collection::vec(0u16..3, 1..=3), proptest::collection::vec(std_req(), 1..=10)).prop_map(|(seed, batch_size, waits_ms, reqs)| LiveCase { seed, batch_size, waits_ms, reqs, sentinel_ietf: None, junk_before_wait: 0 });
     out.extend(run_prop(ctx, "live-young", t.pick(6_000, 60_000), 50, young, |ctx, c| check_live(ctx, c)));
-    let aged = (seed32(), prop::sample::select(vec![1u8, 64]), any::<bool>(), 0u8..3).prop_flat_map(|(seed, batch_size, ietf, mode)| {
+    let aged = (seed32(), prop::sample::select(vec![1u8, 64]), any::<bool>(), 0u8..3, prop_oneof![Just(0u8), 1u8..=3]).prop_flat_map(|(seed, batch_size, ietf, mode, junk)| {
         // mode 0: mixed requests, alternating sentinel; mode 1/2: requests of one protocol only and the sentinel pinned to the
         // other protocol, so consecutive steps present byte-identical batches to one responder
         let reqs = if mode == 0 { proptest::collection::vec(std_req(), 4..=24).boxed() } else { proptest::collection::vec(std_req_of(ietf), 1..=8).boxed() };
-        reqs.prop_map(move |reqs| LiveCase { seed: seed.clone(), batch_size, waits_ms: vec![1_050, 5, 400], reqs, sentinel_ietf: if mode == 0 { None } else { Some(!ietf) } })
+        reqs.prop_map(move |reqs| LiveCase { seed: seed.clone(), batch_size, waits_ms: vec![1_050, 5, 400], reqs, sentinel_ietf: if mode == 0 { None } else { Some(!ietf) }, junk_before_wait: junk })
     });
     out.extend(run_prop(ctx, "live-aged", t.pick(32, 480), 0, aged, |ctx, c| {
         ctx.sample("live-aged", 1, &(c.batch_size, c.waits_ms.clone(), c.reqs.len()));
         check_live(ctx, c)
     }));
+    // the real binary under non-UTC time zones (POSIX TZ strings need no tzdata; named zones if installed)
+    let zones = ["XXX3", "YYY-5:30", "UTC", "Asia/Kolkata", "America/St_Johns", "ZZZ-13", "AAA11:45"];
+    let n = t.pick(4u64, 7u64);
+    out.extend(run_enum(ctx, "tz-real-binary", n, |i| TzCase { tz: zones[i as usize].to_string(), workers: 1 + (i % 2) as u8 }, |ctx, c| check_tz(ctx, c)));
     out
 }
 
+/// real server process under a non-UTC time zone: the midpoint must still be the (UTC) clock
+#[derive(Debug, Clone, Serialize, Deserialize)]
+pub struct TzCase {
+    pub tz: String,
+    pub workers: u8,
+}
+
+fn check_tz(ctx: &mut Ctx, c: &TzCase) -> Res {
+    use crate::proclab::*;
+    let cfg = SrvCfg { seed_hex: super::procs::GOOD_SEED.into(), workers: Some(c.workers.max(1) as u64), env_extra: vec![("TZ".into(), c.tz.clone())], ..Default::default() };
+    let mut s = match ServerProc::start(&cfg) {
+        Ok(s) => s,
+        Err(e) => {
+            ctx.inconclusive(format!("proclab: {}", e));
+            return Ok(());
+        }
+    };
+    if let Err(e) = s.wait_ready(Duration::from_secs(10)) {
+        ctx.inconclusive(format!("C11 tz: server not ready: {}", e.chars().take(200).collect::<String>()));
+        return Ok(());
+    }
+    let sock = std::net::UdpSocket::bind("127.0.0.1:0").unwrap();
+    sock.set_read_timeout(Some(Duration::from_secs(3))).unwrap();
+    const SLACK: u128 = 250_000_000;
+    for k in 0..12u64 {
+        ctx.eval();
+        let proto = if k % 2 == 0 { Proto::Classic } else { Proto::Ietf };
+        let req = fresh_request(proto, b"c11tz", k);
+        let t0 = sys_ns(SystemTime::now());
+        let _ = sock.send_to(&req, s.addr());
+        let mut buf = [0u8; 4096];
+        let n = match sock.recv_from(&mut buf) {
+            Ok((n, _)) => n,
+            Err(_) => return ctx.fail("request-unanswered", format!("TZ={}: request unanswered", c.tz)),
+        };
+        let t1 = sys_ns(SystemTime::now());
+        match verify_strict(proto, &req, &buf[..n], &s.pk) {
+            Ok(i) => {
+                let unit: u128 = if proto == Proto::Ietf { 1_000_000_000 } else { 1_000 };
+                let lo = t0.saturating_sub(SLACK) / unit;
+                let hi = (t1 + SLACK + unit - 1) / unit;
+                if (i.midp as u128) < lo || (i.midp as u128) > hi {
+                    return ctx.fail(
+                        format!("live-midpoint-outside-bracket|{}|tz", proto.name()),
+                        format!("server running with TZ={}: {} MIDP {} not within the harness's UTC clock bracket [{}, {}] (unit {} ns)", c.tz, proto.name(), i.midp, lo, hi, unit),
+                    );
+                }
+            }
+            Err(e) => return ctx.fail(format!("reply-invalid|{}", e), format!("TZ={}: {}", c.tz, e)),
+        }
+    }
+    s.signal(libc::SIGTERM);
+    s.wait_exit(Duration::from_secs(5));
+    ctx.class(&format!("c11:real-binary:TZ={}", c.tz));
+    ctx.nontrivial(&("tz", &c.tz, c.workers));
+    Ok(())
+}
+
 pub fn replay_c11(ctx: &mut Ctx, sub: &str, case: &Value) -> Res {
+    if sub == "tz-real-binary" {
+        return replay_case::<TzCase, _>(ctx, case, |ctx, c| check_tz(ctx, c));
+    }
     install_logger(log::LevelFilter::Off);
     match sub {
         "pure" => replay_case::<ClockCase, _>(ctx, case, |ctx, c| check_clock(ctx, c)),
